@@ -49,9 +49,72 @@ package tensor
 //@   ensures [default_axes] len(axes) == 0 ==> len(a) == n && (forall i :: 0 <= i && i < n ==> a[i] == n - 1 - i)
 //@   ensures [given_axes] len(axes) == n && n > 0 ==> same(a, axes) && len(a) == n
 //@   ensures [noop] (len(axes) == 0 || len(axes) == n) && (allOnes(ap.shape) || isIdentityN(a, n)) ==> typeis(err, "tensor.noopError") && len(retVal.shape) == n && len(retVal.strides) == n && (forall i :: 0 <= i && i < n ==> retVal.shape[i] == ap.shape[i] && retVal.strides[i] == ap.strides[i])
+//@   ensures [noop_only] typeis(err, "tensor.noopError") ==> allOnes(ap.shape) || isIdentityN(a, n)
+//@   ensures [err_kinds] err != nil && !typeis(err, "tensor.noopError") ==> !implements(err, "tensor.NoOpError")
 //@   ensures [bad_axes] len(axes) == n && n >= 2 && !allOnes(ap.shape) && !isVec(ap.shape) && !isPermN(axes, n) ==> err != nil
 //@   ensures [perm] err == nil && n >= 2 && !isVec(ap.shape) ==> len(retVal.shape) == n && len(retVal.strides) == n && (forall i :: 0 <= i && i < n ==> retVal.shape[i] == ap.shape[a[i]] && retVal.strides[i] == ap.strides[a[i]])
 //@   ensures [perm_vector] err == nil && n == 2 && isVec(ap.shape) && isPermN(a, n) ==> (forall i :: 0 <= i && i < n ==> retVal.shape[i] == ap.shape[a[i]] && (retVal.shape[i] > 1 ==> retVal.strides[i] == ap.strides[a[i]]))
 //@   ensures [own] err == nil && n >= 2 ==> fresh(retVal.shape) && fresh(retVal.strides)
 //@   ensures [unchanged] unchanged(ap.shape) && unchanged(ap.strides) && unchanged(axes)
 //@   assigns nothing
+
+// ---- ownership ghost state (C19) ----
+// gh("lib", arr): 0 = not the library's (caller's slice), 1 = owned by the library (allocated or borrowed by
+// library code; make/BorrowInts set it), 2 = handed back to the pool. ReturnInts is a trusted primitive.
+
+//@ func tensor.ReturnInts
+//@   trusted
+//@   requires [owned] isnil(is) || gh("lib", is.arr) == 1
+//@   ensures [pooled] !isnil(is) && cap(is) <= 8 ==> gh("lib", is.arr) == 2
+//@   ensures [kept] isnil(is) || cap(is) > 8 ==> gh("lib", is.arr) == old(gh("lib", is.arr))
+//@   assigns whole(is), gh("lib", is.arr)
+
+//@ spec apIsZero(ap) bool = len(ap.shape) == 0 && len(ap.strides) == 0 && !ap.fin && ap.o == DataOrder(0) && ap.Δ == Triangle(0)
+
+//@ func tensor.Dense.UT
+//@   props C03 C19
+//@   requires [tw_owned] !apIsZero(t.old) ==> isnil(t.transposeWith) || gh("lib", t.transposeWith.arr) == 1
+//@   ensures [restore] old(!apIsZero(t.old)) ==> t.shape == old(t.old.shape) && t.strides == old(t.old.strides) && t.AP.o == old(t.old.o) && t.AP.fin == old(t.old.fin) && isnil(t.transposeWith) && apIsZero(t.old)
+//@   ensures [noop] old(apIsZero(t.old)) ==> t.shape == old(t.shape) && t.strides == old(t.strides) && t.transposeWith == old(t.transposeWith)
+//@   assigns t.AP, t.old, t.transposeWith, whole(t.transposeWith), gh("lib", t.transposeWith.arr)
+
+// physical data movement is delegated to the engine (interface); metadata is not its business
+//@ func tensor.Transposer.Transpose
+//@   trusted
+//@   params e t expStrides
+//@   results err
+//@   assigns whole(asptr("tensor.Dense", t).Raw)
+
+//@ spec libOwnedOrNil(s) bool = isnil(s) || gh("lib", s.arr) == 1
+
+//@ func tensor.Dense.Transpose
+//@   props C03 C16 C19
+//@   config frame any
+//@   requires [dims] forall i :: 0 <= i && i < len(t.shape) ==> t.shape[i] >= 0
+//@   requires [lens] len(t.strides) == len(t.shape) || (isVec(t.shape) && t.AP.o & ColMajor != DataOrder(0))
+//@   requires [own] libOwnedOrNil(t.old.shape) && libOwnedOrNil(t.old.strides) && t.old.shape.arr != t.old.strides.arr
+//@   requires [sep] t.strides.arr != t.shape.arr && t.old.shape.arr != t.shape.arr && t.old.shape.arr != t.strides.arr && t.old.strides.arr != t.shape.arr && t.old.strides.arr != t.strides.arr
+//@   ensures [untransposed] old(apIsZero(t.old)) ==> result == nil && t.shape == old(t.shape) && t.strides == old(t.strides)
+//@   ensures [cleared] old(!apIsZero(t.old)) && len(t.shape) > 0 ==> apIsZero(t.old) && isnil(t.transposeWith)
+//@   ensures [row_major_strides] old(!apIsZero(t.old)) && len(t.shape) > 0 && t.AP.o & ColMajor == DataOrder(0) ==> (forall i :: 0 <= i && i < len(t.shape) ==> t.strides[i] == sufprod(t.shape, i+1))
+//@   ensures [shape_kept] unchanged(t.shape) && len(t.shape) == old(len(t.shape))
+
+//@ func tensor.Dense.T
+//@   props C03 C19
+//@   mode rank t.shape, t.strides
+//@   config frame any
+//@   config prune solver
+//@   let n = len(t.shape)
+//@   cases len(axes) : 0, n
+//@   requires [untransposed] apIsZero(t.old) && isnil(t.transposeWith)
+//@   requires [dims] forall i :: 0 <= i && i < n ==> t.shape[i] >= 1
+//@   requires [nonneg] forall i :: 0 <= i && i < len(axes) ==> axes[i] >= 0
+//@   requires [sep] t.shape.arr != t.strides.arr && axes.arr != t.shape.arr && axes.arr != t.strides.arr
+//@   requires [valid_vec] isVec(t.shape) && len(axes) == n ==> isPermN(axes, n)
+//@   requires [caller_axes] len(axes) > 0 ==> gh("lib", axes.arr) == 0
+//@   ensures [perm] result == nil && n >= 2 && !isVec(old(t.shape)) && !(allOnes(old(t.shape)) || (len(axes) == n && isIdentityN(axes, n))) ==> len(t.shape) == n && (forall i :: 0 <= i && i < n ==> t.shape[i] == old(t.shape)[(len(axes) == 0 ? n - 1 - i : axes[i])] && t.strides[i] == old(t.strides)[(len(axes) == 0 ? n - 1 - i : axes[i])])
+//@   ensures [thunk] result == nil && n >= 2 && !(allOnes(old(t.shape)) || (len(axes) == n && isIdentityN(axes, n))) ==> t.old.shape == old(t.shape) && t.old.strides == old(t.strides) && len(t.transposeWith) == n
+//@   ensures [noop] (len(axes) == 0 || len(axes) == n) && (allOnes(old(t.shape)) || (len(axes) == n && n > 0 && isIdentityN(axes, n))) ==> result == nil && t.shape == old(t.shape) && t.strides == old(t.strides) && apIsZero(t.old)
+//@   ensures [caller_axes_kept] unchanged(axes) && (len(axes) > 0 ==> gh("lib", axes.arr) == 0)
+//@   ensures [not_retained] len(axes) > 0 && !isnil(t.transposeWith) ==> t.transposeWith.arr != axes.arr
+//@   ensures [tw_owned] !isnil(t.transposeWith) ==> gh("lib", t.transposeWith.arr) == 1
